@@ -85,3 +85,21 @@ PROPS["C16"] = dict(
         dict(name="TestVF_C16KnownF12", rapid=False, quick=dict(shards=1, timeout=60), thorough=dict(shards=1, timeout=60)),
     ],
 )
+
+PROPS["C15"] = dict(
+    level="exploration", engine="E1 unit",
+    technique="property-based testing (rapid): generated trees through the real scanner, archive reader and archive writer with independent read and write segmentations; tree-equality, size and descriptor-census oracles; exhaustive cut pairs for small trees",
+    level_text="Random search over (tree shape, names, sizes, producer read sizes, independent consumer write segmentation, source files "
+               "shrunk or extended between scan and read, trees of 120-400 entries) with oracles: reconstructed tree == source tree, bytes "
+               "produced == announced size, /proc/self/fd census stays within baseline+3 on both sides, a shrunken source is an error and "
+               "the consumer never creates a path that is not in the source. Every single cut and every pair of cuts is enumerated for four small trees.",
+    level_note="Trusts the harness tree walker/SHA-1 comparison. GC is disabled during a case so that a dropped, unclosed *os.File stays visible in the census. "
+               "Symlinks and non-UTF-8 names are out of domain.",
+    rule="non-trivial = at least one consumer write boundary falls inside an entry header or exactly at an entry boundary; distinct by SHA-1 of the case JSON",
+    exhaustive_scope="4 fixed small trees x every single cut and (stream <= VERIF_C15_PAIRLEN bytes) every pair of cuts of the archive stream",
+    tests=[
+        dict(name="TestVF_C15", quick=dict(checks=2400, shards=8, timeout=300), thorough=dict(checks=100000, shards=16, timeout=3000)),
+        dict(name="TestVF_C15Exhaustive", rapid=False, quick=dict(shards=4, timeout=300, env=dict(VERIF_C15_PAIRLEN=0)),
+             thorough=dict(shards=16, timeout=3000, env=dict(VERIF_C15_PAIRLEN=400))),
+    ],
+)
